@@ -143,7 +143,7 @@ func (c *checker) spaceB() {
 					b := &builder{iv: v.iv}
 					w, in := w, in
 					body := sk.build(b, func(b *builder) []*node { return one(w.build(b, in.build)) })
-					c.doc(docCase{desc: desc, body: body, st: v.st, fr: v.fr, nontrivial: true, loose: sk.loose, deep: ii == 0 && vi == 0 && (thorough || wi < len(structWrappers)+len(mixedWrappers) || sk.name == "body")})
+					c.doc(docCase{desc: desc, body: body, st: v.st, fr: v.fr, nontrivial: true, loose: sk.loose, modal: true, deep: ii == 0 && vi == 0 && (thorough || wi < len(structWrappers)+len(mixedWrappers) || sk.name == "body")})
 				}
 			}
 		}
@@ -180,7 +180,7 @@ func (c *checker) spaceB2() {
 						}
 						return out
 					}
-					c.doc(docCase{desc: desc, body: sk.build(b, mid), st: styles[0], fr: frames[0], nontrivial: true, deep: skn == "body" && after == "none"})
+					c.doc(docCase{desc: desc, body: sk.build(b, mid), st: styles[0], fr: frames[0], nontrivial: true, modal: true, deep: skn == "body" && after == "none"})
 				}
 			}
 		}
@@ -255,7 +255,7 @@ func (c *checker) spaceC() {
 							return []*node{w1.build(b, pInner), w2.build(b, pInner)}
 						}
 					}
-					c.doc(docCase{desc: desc, body: sk.build(b, mid), st: styles[0], fr: frames[0], nontrivial: true, loose: sk.loose, deep: thorough && skn == "body"})
+					c.doc(docCase{desc: desc, body: sk.build(b, mid), st: styles[0], fr: frames[0], nontrivial: true, loose: sk.loose, modal: true, deep: thorough && skn == "body"})
 				}
 			}
 		}
@@ -396,6 +396,44 @@ func (c *checker) spaceT() {
 			gen(nil, rows, 3, 2)
 		} else {
 			gen(nil, rows, 2, 2)
+		}
+	}
+}
+
+// spaceM: mixed-content containers (own text + structured child + own text) x placement (plain page, kept part
+// next to an excluded nav, inside an excluded aside) x inline variant x spelling.
+func (c *checker) spaceM() {
+	thorough := c.e.Thorough()
+	ivs := []int{0, 1, 4}
+	sts := []style{styles[0], styles[5]}
+	if thorough {
+		ivs = []int{0, 1, 2, 3, 4, 5, 6, 7}
+		sts = []style{styles[0], styles[5], styles[1], styles[7]}
+	}
+	for _, cont := range mixedContainers {
+		for _, child := range mixedChildren {
+			for _, after := range mixedAfters {
+				for _, place := range []string{"plain", "beside-nav", "in-aside"} {
+					for _, iv := range ivs {
+						for si, st := range sts {
+							desc := harness.D("space", "M", "container", cont, "child", child, "after", after, "place", place, "iv", inlineVariants[iv], "style", st.name)
+							b := &builder{iv: iv}
+							x := mixedShape(cont, child, after)(b)
+							var body *node
+							switch place {
+							case "plain":
+								body = addAll(el("body", b.prose("p", "p")), x).add(b.prose("p", "p"))
+							case "beside-nav":
+								body = el("body", el("nav", b.leaf("p", "p")), addAll(el("div"), x), b.prose("p", "p"))
+							default:
+								body = el("body", b.prose("p", "p"), addAll(el("aside"), x), b.prose("p", "p"))
+							}
+							c.doc(docCase{desc: desc, body: body, st: st, fr: frames[0], nontrivial: true, modal: place != "plain",
+								deep: si == 0 && (iv == 0 || thorough && iv == 4)})
+						}
+					}
+				}
+			}
 		}
 	}
 }
